@@ -24,7 +24,7 @@ CUSTOM_TRAIT = 'CUSTOM_PV_T'
 PROJECTS = ['proj-a', 'proj-b']
 USERS = ['user-a', 'user-b']
 CTYPES = ['INSTANCE', 'MIGRATION']
-RATIOS = [0.5, 1.0, 1.5, 2.0, 16.0, 0.29, 1.1]
+RATIOS = [0.5, 1.0, 1.5, 2.0, 16.0, 0.29, 1.1, 0.0]
 
 
 def vstr(v):
@@ -294,14 +294,22 @@ def put_inventories(draw, d, v, u=None, defect=None, keep_used=None):
     if defect == 'bad-schema':
         k = sorted(invs) and draw(st.sampled_from(sorted(invs)))
         if k:
-            invs[k]['total'] = draw(st.sampled_from([0, -1, 'x', None,
-                                                     MAX_INT + 1]))
+            fld = draw(st.sampled_from(['total', 'total', 'reserved',
+                                        'min_unit', 'max_unit', 'step_size']))
+            bad = [-1, 'x', None, MAX_INT + 1, 1.5]
+            if fld != 'reserved':
+                bad.append(0)
+            invs[k] = dict(invs[k])
+            invs[k][fld] = draw(st.sampled_from(bad))
         else:
             invs = []
         labels.append('bad-schema')
     usage = d.usage()
     for rc, inv in invs.items() if isinstance(invs, dict) else ():
-        if (u, rc) in usage and isinstance(inv.get('total'), int):
+        if (u, rc) in usage and all(
+                isinstance(inv.get(f, 1), (int, float)) and
+                not isinstance(inv.get(f, 1), bool)
+                for f in ('total', 'reserved', 'allocation_ratio')):
             full = dict(total=inv['total'], reserved=inv.get('reserved', 0),
                         allocation_ratio=inv.get('allocation_ratio', 1.0))
             if capacity(full) < usage[(u, rc)]:
@@ -609,9 +617,19 @@ def put_allocations(draw, d, v, consumer=None, defect=None, clear=False):
     else:
         amap = _draw_alloc_map(draw, d, consumer, defect, labels)
     if v < (1, 12):
-        body = {'allocations': [
+        entries = [
             {'resource_provider': {'uuid': rp}, 'resources': x['resources']}
-            for rp, x in sorted(amap.items())]}
+            for rp, x in sorted(amap.items())]
+        if entries and defect is None and draw(st.integers(0, 9)) == 9:
+            # the same provider named by two list entries (the later one is
+            # the one that counts)
+            first = entries[0]
+            other = {'resource_provider': first['resource_provider'],
+                     'resources': {rc: max(1, a - 1) for rc, a
+                                   in first['resources'].items()}}
+            entries = [other] + entries
+            labels.append('dup-provider-entry')
+        body = {'allocations': entries}
     else:
         body = {'allocations': amap}
     _consumer_fields(draw, d, v, consumer, body, defect, labels)
